@@ -171,6 +171,10 @@ pub struct RunCfg {
     /// of an ordinary drop.
     #[serde(default)]
     pub unwind: Vec<usize>,
+    /// With `rev`: `StreamOpts::rev()` is called `1 + rev_again` times (documented:
+    /// "multiple calls to this function will be the same as one call").
+    #[serde(default)]
+    pub rev_again: u8,
 }
 
 impl RunCfg {
@@ -511,6 +515,7 @@ pub fn decode_cfg(t: &mut Tape, p: &Profile, n: usize, intr: bool) -> RunCfg {
         pre_interrupted = 0;
     }
     let on_clone = t.chance(1, 10);
+    let rev_again = if t.chance(1, 8) { 1 + t.below(2) as u8 } else { 0 };
     let unwind: Vec<usize> = if api.shape.is_stream() && t.chance(1, 10) {
         let all = t.chance(1, 3);
         (0..n).filter(|_| all || t.chance(1, 3)).collect()
@@ -541,5 +546,6 @@ pub fn decode_cfg(t: &mut Tape, p: &Profile, n: usize, intr: bool) -> RunCfg {
         pre_interrupted,
         on_clone,
         unwind,
+        rev_again,
     }
 }
